@@ -89,6 +89,11 @@ type Case struct {
 	KeepGhost    []int       `json:"keep_ghost,omitempty"` // IDs outside the universe in the keep-set
 	Uploads      []Upload    `json:"uploads,omitempty"`    // local/sftp prune cases: real StoreChunk calls before the prune
 	CLI          *CLICase    `json:"cli,omitempty"`        // run the operation through $VERIF_DESYNC_BIN (cli_test.go)
+	// local only: while the operation runs nothing can be unlinked in the prefix directories of
+	// these universe chunks (immutable flag, unlink_test.go)
+	UnlinkFail []int `json:"unlink_fail,omitempty"`
+	// obsolete (kept so that older replay files still load): such a directory may always hold temporary files
+	UnlinkFailTmp bool `json:"unlink_fail_tmp,omitempty"`
 }
 
 // ------------------------------------------------------------------ generator
@@ -169,6 +174,24 @@ func genCase(t *rapid.T) Case {
 			e.Where = rapid.IntRange(0, 6).Draw(t, "where")
 		}
 		c.Extras = append(c.Extras, e)
+	}
+	if c.Backend == "local" && n > 0 && rapid.IntRange(0, 4).Draw(t, "unlink_fails") == 0 {
+		for i, k := 0, rapid.IntRange(1, 2).Draw(t, "unlink_dirs"); i < k; i++ {
+			r := rapid.IntRange(0, n-1).Draw(t, "unlink_ref")
+			// prefer a chunk the operation will want to delete
+			for d := 0; d < n; d++ {
+				s := c.Chunks[(r+d)%n]
+				st := s.C
+				if c.Uncompressed {
+					st = s.U
+				}
+				if (c.Op == "prune" && st > 0 && !s.Keep) || (c.Op == "verify" && st > 1) {
+					r = (r + d) % n
+					break
+				}
+			}
+			c.UnlinkFail = append(c.UnlinkFail, r)
+		}
 	}
 	if c.Op == "prune" && c.Backend != "s3" && n > 0 && rapid.IntRange(0, 2).Draw(t, "uploading") == 0 {
 		for i, k := 0, rapid.IntRange(1, 3).Draw(t, "uploads"); i < k; i++ {
@@ -485,6 +508,12 @@ func norm(c *Case) {
 	if len(c.Uploads) > 4 {
 		c.Uploads = c.Uploads[:4]
 	}
+	if c.Backend != "local" || len(c.Chunks) == 0 || c.Cancel {
+		c.UnlinkFail = nil
+	}
+	if len(c.UnlinkFail) > 3 {
+		c.UnlinkFail = c.UnlinkFail[:3]
+	}
 }
 
 func keepModeOf(c Case, l *layout) string {
@@ -620,6 +649,56 @@ func run(c Case) (o hx.Outcome) {
 		cancel()
 	}
 
+	// unlink faults: the directories are made immutable for the duration of the operation only
+	// delivered: the operation had to unlink a file it could not unlink
+	unlinkDelivered := func() bool {
+		for k := range v.blocked {
+			cl := v.classOf(k)
+			// LocalStore.Prune tries to remove every file whose name starts with ".tmp-cacnk"
+			if c.Op == "prune" && (cl.Kind == kTmp || strings.HasPrefix(baseName(k), ".tmp-cacnk")) {
+				return true
+			}
+			if cl.Kind == kOwn {
+				if c.Op == "prune" && !l.keep[cl.ID] {
+					return true
+				}
+				if c.Op == "verify" && c.Repair && !contentMatches(cl.ID, []byte(before[k]), c.Uncompressed) {
+					return true
+				}
+			}
+		}
+		return false
+	}
+	var unblock func()
+	if len(c.UnlinkFail) > 0 && canBlockUnlink() {
+		d := be.(*dirBackend)
+		var dirs []string
+		seen := map[string]bool{}
+		for _, r := range c.UnlinkFail {
+			r = ((r % len(l.ids)) + len(l.ids)) % len(l.ids)
+			pd := l.ids[r][:4]
+			if seen[pd] {
+				continue
+			}
+			seen[pd] = true
+			if fi, err := os.Stat(filepath.Join(d.dir, pd)); err != nil || !fi.IsDir() {
+				continue
+			}
+			dirs = append(dirs, filepath.Join(d.dir, pd))
+		}
+		v.blocked = map[string]bool{}
+		for _, k := range sortedKeys(before) {
+			for _, dd := range dirs {
+				// only the directory itself is immutable: entries of its subdirectories can be unlinked
+				if filepath.Dir(filepath.Join(d.dir, filepath.FromSlash(k))) == dd {
+					v.blocked[k] = true
+				}
+			}
+		}
+		unblock = blockUnlink(dirs)
+		defer unblock()
+	}
+
 	var opErr error
 	var vd *verdicts
 	var after snap
@@ -658,11 +737,12 @@ func run(c Case) (o hx.Outcome) {
 	switch {
 	case cli != nil && c.Op == "prune":
 		vd = judgePrune(v, before, after, l.keep, opErr)
-		if opErr != nil && count["chunk-named"] == 0 {
+		if opErr != nil && count["chunk-named"] == 0 && !unlinkDelivered() {
 			vd.add("C16:cli:prune:error-exit", opErr.Error())
 		}
 	case cli != nil:
 		output = cli.stderr
+		v.claimed = claimedRemoved(output)
 		reported, _ := reportedInvalid(output)
 		nReported = len(reported)
 		ended := vComplete
@@ -687,6 +767,7 @@ func run(c Case) (o hx.Outcome) {
 		opErr = local.Verify(ctx, c.N, c.Repair, w)
 		after = be.snapshot()
 		output = w.String()
+		v.claimed = claimedRemoved(output)
 		reported, _ := reportedInvalid(output)
 		nReported = len(reported)
 		ended := vComplete
@@ -790,6 +871,30 @@ func run(c Case) (o hx.Outcome) {
 		o.Class("nontrivial:" + beName + ":" + c.Op)
 	}
 
+	if unblock != nil {
+		unblock()
+	}
+	if len(v.blocked) > 0 {
+		via := "local"
+		if c.CLI != nil {
+			via = "cli"
+		}
+		name := via + ":prune:unlink-fails"
+		if c.Op == "verify" {
+			name = via + ":verify:unlink-fails"
+			if c.Repair {
+				name = via + ":verify-repair:unlink-fails"
+			}
+		}
+		o.Class(name)
+		if unlinkDelivered() {
+			o.Class(name + ":delivered")
+			if opErr != nil {
+				o.Class(name + ":delivered:error-returned")
+			}
+		}
+		desc["unlink_fails"] = len(v.blocked)
+	}
 	if len(c.Uploads) > 0 {
 		o.Class(c.Backend + ":uploads")
 		if uploadsOK > 0 {
@@ -884,7 +989,7 @@ var spec = &hx.Spec[Case]{
 	Level: "exploration",
 	Rule: "cases = store content over <=12 chunk IDs (per ID and format: absent/valid/5 kinds of invalid) + junk, temp-file names, chunk-like names in wrong places, IDs outside the universe, " +
 		"keep-set none/all/subset/+absent IDs, backend local | s3 (fake, with/without key prefix, paged listing, scripted DELETE/LIST faults) | sftp (fake ssh, 2 sessions), compressed/uncompressed mode, " +
-		"op = Prune (local/sftp: optionally after 1..3 real StoreChunk calls, some with a blocked final rename) or LocalStore.Verify(n in 1..16, repair on/off); non-trivial prune = both formats present and >=1 unreferenced own-format chunk and >=1 junk/temp/misplaced file; " +
+		"local: optionally unlink made to fail in the directories of chosen chunks; op = Prune (local/sftp: optionally after 1..3 real StoreChunk calls, some with a blocked final rename) or LocalStore.Verify(n in 1..16, repair on/off); non-trivial prune = both formats present and >=1 unreferenced own-format chunk and >=1 junk/temp/misplaced file; " +
 		"non-trivial verify = both formats present and >=1 invalid and >=1 valid own-format chunk; distinct by (backend, mode, op, per-ID states, extras, keep, n, repair, fault)",
 	Assumptions: []string{
 		"a chunk file is <4 hex>/<64 hex>[.cacnk] (lower case) whose directory equals the first 4 digits; anything else is not a chunk file",
@@ -892,6 +997,7 @@ var spec = &hx.Spec[Case]{
 		"content validity judged with crypto/sha512 and an own zstd decoder instance (klauspost)",
 		"S3 = in-process fake (internal/fakes3), SFTP = pkg/sftp server over stdio (internal/fakessh) on a scratch directory, N=2 sessions (N=1 deadlocks in Prune: outside the statement)",
 		"Verify exists for LocalStore only; Verify's findings are read from the 'chunk id <id> does not match its hash' lines on its writer",
+		"unlink faults (local): the prefix directory of chosen chunks carries the immutable inode flag while the operation runs (unlink fails with EPERM even for root, reads work); under such a fault Verify with repair may leave the invalid chunk but must not print ': removed' for it; a successful Prune must also have removed the temporary files of such a directory",
 		"real uploads: StoreChunk through the store under test, the final rename made to fail by a non-empty directory at the chunk's name (removed again before the prune); every non-chunk file such a call leaves behind counts as an abandoned temporary chunk file whatever its name",
 	},
 	Required: []string{
@@ -904,6 +1010,8 @@ var spec = &hx.Spec[Case]{
 		"nontrivial:local:prune", "nontrivial:local:verify", "nontrivial:s3:prune", "nontrivial:s3-prefix:prune", "nontrivial:sftp:prune",
 		"local:upload:ok", "sftp:upload:ok", "local:abandoned-tempfile:real-upload", "sftp:abandoned-tempfile:real-upload",
 		"local:abandoned-tempfile:real-upload:prune-ok", "sftp:abandoned-tempfile:real-upload:prune-ok",
+		"local:prune:unlink-fails", "local:prune:unlink-fails:delivered", "local:prune:unlink-fails:delivered:error-returned",
+		"local:verify-repair:unlink-fails", "local:verify-repair:unlink-fails:delivered", "local:verify:unlink-fails",
 	},
 	Gen:     genCase,
 	Run:     run,
@@ -1225,6 +1333,56 @@ func TestEnumCLI(t *testing.T) {
 		}
 	}
 	hx.Exhaustive("desync prune (child process): every order of every non-empty subset of four index files of 1/3/5/2 entries x store mode")
+}
+
+// TestEnumUnlink: unlink made to fail in the directory of one chunk, for Prune (chunk referenced
+// or not) and Verify (chunk invalid or valid, repair on/off, n in {1,3}) in both store modes, as
+// library calls and, with $VERIF_DESYNC_BIN, through the command.
+func TestEnumUnlink(t *testing.T) {
+	if hx.Shard() != 0 {
+		t.Skip()
+	}
+	if !canBlockUnlink() {
+		t.Skip("immutable flag not available")
+	}
+	extras := []Extra{{Kind: "junk", Where: 0, Form: 0, Seed: 2}, {Kind: "tmp", Where: 1, Ref: 2, Form: 0, Seed: 77}}
+	vias := []bool{false}
+	if cliBin() != "" {
+		vias = append(vias, true)
+	}
+	for _, viaCLI := range vias {
+		for _, unc := range []bool{false, true} {
+			for _, keep := range []bool{false, true} {
+				c := Case{Backend: "local", Uncompressed: unc, Op: "prune", UnlinkFail: []int{0}, Extras: extras,
+					Chunks: []ChunkSpec{{Seed: 31, Len: 40, C: 1, U: 1, Keep: keep}, {Seed: 32, Len: 50, C: 1, U: 1, Keep: true}, {Seed: 33, Len: 60, C: 1, U: 1}}}
+				if viaCLI {
+					ix := CLIIndex{Chunks: []int{1}}
+					if keep {
+						ix.Chunks = []int{1, 0}
+					}
+					c.CLI = &CLICase{Indexes: []CLIIndex{ix}}
+				}
+				if !hx.Case(t, spec, c) {
+					return
+				}
+			}
+			for _, st := range []int{1, 2, 4} {
+				for _, repair := range []bool{false, true} {
+					for _, n := range []int{1, 3} {
+						c := Case{Backend: "local", Uncompressed: unc, Op: "verify", N: n, Repair: repair, UnlinkFail: []int{0}, Extras: extras,
+							Chunks: []ChunkSpec{{Seed: 31, Len: 40, C: st, U: st}, {Seed: 32, Len: 50, C: 1, U: 1}, {Seed: 33, Len: 60, C: 2, U: 2}}}
+						if viaCLI {
+							c.CLI = &CLICase{Long: n == 3}
+						}
+						if !hx.Case(t, spec, c) {
+							return
+						}
+					}
+				}
+			}
+		}
+	}
+	hx.Exhaustive("unlink failing in one chunk's directory: prune (referenced/not) and verify (valid/invalid x repair x n in {1,3}) x mode, library and command")
 }
 
 func TestProp(t *testing.T) { hx.Prop(t, spec) }
